@@ -25,7 +25,7 @@ MIN_OBS = {'exchanges': {'quick': 1200, 'thorough': 20000}, 'cts_checked': {'qui
 def cases(tier, seed):
     rng = random.Random(9000 + seed)
     out = []
-    n = 1300 if tier == 'quick' else 24000
+    n = 3500 if tier == 'quick' else 36000
     for i in range(n):
         c = xchg.gen_case(rng)
         r = rng.random()
